@@ -698,6 +698,13 @@ def sx_call(f, *a, **k):
         alt = getattr(RX.FakeRe, f.__name__, None)
         if alt is not None and _deep_sym_in(a):
             return alt(*a, **k)
+    if selfobj is not None and type(selfobj) is _re.Pattern and _deep_sym_in(a):
+        # a pattern compiled at module level (re.compile with a concrete pattern returns the real object): its methods
+        # are routed to the symbolic matcher with the same pattern text and flags
+        alt = getattr(RX.SymPattern(selfobj.pattern, selfobj.flags & ~_re.UNICODE), getattr(f, "__name__", ""), None)
+        if alt is None:
+            raise Unsupported("re.Pattern.%s on a symbolic string" % getattr(f, "__name__", "?"))
+        return alt(*a, **k)
     if f is print and _deep_sym_in(a):
         return None  # console output is not part of any kernel
     if f is _real_str or f is str:
